@@ -737,12 +737,14 @@ func (b *Block) getNumVoxels(labelIndex uint32) (labelVoxels uint64) {
 				default:
 				}
 
+				// A sub-block's index list can name the label more than once (e.g., after a merge
+				// redirected several entries to the same label), so track every matching position.
 				var found bool
-				var targetIndex uint16
+				var isTarget [SubBlockSize * SubBlockSize * SubBlockSize]bool
 				for i := uint16(0); i < numSBLabels; i++ {
 					if b.SBIndices[indexPos] == labelIndex {
 						found = true
-						targetIndex = i
+						isTarget[i] = true
 					}
 					indexPos++
 				}
@@ -773,7 +775,7 @@ func (b *Block) getNumVoxels(labelIndex uint32) (labelVoxels uint64) {
 								index |= uint16(b.SBValues[bytepos+1])
 								index >>= uint(16 - bithead - bits)
 							}
-							if index == targetIndex {
+							if isTarget[index] {
 								labelVoxels++
 							}
 							bitpos += bits
